@@ -7,7 +7,7 @@ package shimagent
 //vsym:entry H10_forward
 //vsym:entry H10_faults
 //vsym:model golang.org/x/crypto/ssh/agent.NewClient m10NewClient
-//vsym:replay none
+//vsym:replay same-harness
 //vsym:max-len 4
 //vsym:expect-cover C10.hw-accepted C10.hw-refused-no-key C10.hw-refused-not-cert C10.hw-sign-forwarded C10.hw-removed C10.listed-once C10.forward-ok C10.forward-too-large C10.forward-short C10.fault-surfaces
 //vsym:bound H10_addhardcert: upstream holding 0..2 identities (either of two plain keys, a certificate over key 1); candidate = certificate over key 1 or 2 with symbolic window containing the symbolic clock, a plain key, or nil; sign data of 2 symbolic bytes, flags symbolic
@@ -53,10 +53,10 @@ func H10_addhardcert() {
 				vAssume(false)
 			}
 			has[k] = true
-			up.ids = append(up.ids, &mwIdent{format: mwKeyFormat, blob: []byte{'k', byte(k)}, comment: "k"})
+			mwUpKey(up, k, "k")
 		case 2:
 			c := h10Valid(1, false)
-			up.ids = append(up.ids, &mwIdent{format: mwCertFormat, blob: mwCertMarshal(c), comment: "c"})
+			mwUpCert(up, c, "c")
 		}
 	}
 	cand := vChoose(4, "candidate")
@@ -67,7 +67,7 @@ func H10_addhardcert() {
 		crt = h10Valid(cand+1, false)
 		key = crt
 	case 2:
-		key = &mwKey{id: 1}
+		key = mwPlainKey(1)
 	case 3:
 		key = nil
 	}
@@ -123,7 +123,7 @@ func H10_addhardcert() {
 	}
 	// removal — also when the underlying agent holds the very same certificate
 	if vChoose(2, "also-held-upstream") == 1 {
-		up.ids = append(up.ids, &mwIdent{format: mwCertFormat, blob: mwCertMarshal(crt), comment: "dup"})
+		mwUpCert(up, crt, "dup")
 	}
 	if vChoose(2, "remove-all") == 1 {
 		vAssert(s.RemoveAll() == nil, "C10.removeall")
@@ -147,12 +147,11 @@ func H10_passthrough() {
 	var blobs [][]byte
 	for i := 0; i < nu; i++ {
 		if i < 2 && vChoose(2, "plain") == 1 {
-			b := []byte{'k', byte(i + 1)}
-			up.ids = append(up.ids, &mwIdent{format: mwKeyFormat, blob: b, comment: vNondetString("comment", 1)})
-			blobs = append(blobs, b)
+			mwUpKey(up, i+1, vNondetString("comment", 1))
+			blobs = append(blobs, mwKeyBlob(i+1))
 		} else {
 			c := h10Valid(1+vChoose(2, "cert-key"), vChoose(2, "decodes") == 1)
-			up.ids = append(up.ids, &mwIdent{format: mwCertFormat, blob: mwCertMarshal(c), comment: vNondetString("comment", 1)})
+			mwUpCert(up, c, vNondetString("comment", 1))
 			blobs = append(blobs, mwCertMarshal(c))
 		}
 	}
@@ -179,7 +178,7 @@ func H10_passthrough() {
 	vAssert(len(up.added) == 1 && vEqString(up.added[0].Comment, ak.Comment) && up.added[0].LifetimeSecs == ak.LifetimeSecs, "C10.add-reaches-the-underlying-agent-unchanged")
 	if nu > 0 {
 		w := vChoose(nu, "remove-which")
-		key, _ := mwParsePublicKey(blobs[w])
+		key, _ := ssh.ParsePublicKey(blobs[w])
 		vAssert(s.Remove(key) == nil, "C10.remove-ok")
 		vAssert(!up.has(blobs[w]) && len(up.ids) == nu-1, "C10.remove-has-the-same-effect-as-on-the-underlying-agent")
 	}
@@ -262,9 +261,9 @@ func H10_faults() {
 	h10Clock()
 	up := &mwUpstream{failAt: -1}
 	s := mwNewServer(up, vChoose(2, "no-upstream-mode") == 1)
-	up.ids = append(up.ids, &mwIdent{format: mwKeyFormat, blob: []byte{'k', 1}, comment: "k"})
+	mwUpKey(up, 1, "k")
 	upc := h10Valid(1, vChoose(2, "up-decodes") == 1)
-	up.ids = append(up.ids, &mwIdent{format: mwCertFormat, blob: mwCertMarshal(upc), comment: "c"})
+	mwUpCert(up, upc, "c")
 	mem := h10Valid(1, false)
 	mwPutMem(s, mem)
 	lockedFirst := false
@@ -282,11 +281,11 @@ func H10_faults() {
 		case 1:
 			_, err = s.Signers()
 		case 2:
-			_, err = s.Sign(&mwKey{id: 1}, []byte("d"))
+			_, err = s.Sign(mwPlainKey(1), []byte("d"))
 		case 3:
 			err = s.Add(agent.AddedKey{Comment: "x"})
 		case 4:
-			err = s.Remove(&mwKey{id: 1})
+			err = s.Remove(mwPlainKey(1))
 		case 5:
 			err = s.RemoveAll()
 		case 6:
